@@ -704,6 +704,93 @@ func checkC10(c *Ctx, r *Report) {
 		r.Check("C10-store", where, "stored as in/<MID>.b2f", c.pos(fn.Pos()), stored,
 			"the serialised message is written to in/<MID>.b2f", "the serialised message is not written to in/<MID>.b2f")
 	}
+	// ---- C10-unread: marking read/unread changes the unread flag and nothing else
+	r.Rule("C10-unread", 3, "SetUnread toggles the unread flag only, then rewrites the message's own file")
+	if fn := c.Func(pkg, "SetUnread"); fn == nil {
+		r.Fail("C10-unread", "anchor SetUnread not found")
+	} else {
+		where := fnName(fn)
+		var unreadPar *ssa.Parameter
+		for _, p := range fn.Params {
+			if b, ok := p.Type().Underlying().(*types.Basic); ok && b.Kind() == types.Bool {
+				unreadPar = p
+			}
+		}
+		onEdge := func(in ssa.Instruction, truth bool) bool {
+			for _, cd := range condsAt(in.Block()) {
+				if unreadPar != nil && sameSlotValue(cd.V, unreadPar) && cd.Truth == truth {
+					return true
+				}
+			}
+			return false
+		}
+		var muts []ssa.CallInstruction
+		nOther := 0
+		for _, ci := range allCalls(fn) {
+			n := callName(ci.Common())
+			if n != "fbb.Header.Set" && n != "fbb.Header.Del" && n != "fbb.Header.Add" {
+				continue
+			}
+			key, isC := constString(ci.Common().Args[1])
+			o := r.Add("C10-unread", where, "header mutation "+c.exprAt(fn, ci.Pos()), c.pos(ci.Pos()))
+			switch {
+			case !isC || key != "X-Unread":
+				nOther++
+				o.Bad("SetUnread changes a header other than X-Unread on the caller's message (%q): the handle the caller keeps no longer matches the stored message - e.g. a second SetUnread on the same handle fails or listings differ from a fresh load", key)
+			case n == "fbb.Header.Set":
+				v, _ := constString(ci.Common().Args[2])
+				if v == "true" && onEdge(ci, true) {
+					o.OK("X-Unread set to \"true\" on the unread edge")
+					muts = append(muts, ci)
+				} else {
+					o.Bad("X-Unread is not set to \"true\" exactly on the unread edge")
+				}
+			case n == "fbb.Header.Del":
+				if onEdge(ci, false) {
+					o.OK("X-Unread removed on the read edge")
+					muts = append(muts, ci)
+				} else {
+					o.Bad("X-Unread is removed on an edge other than 'unread == false'")
+				}
+			default:
+				o.Bad("X-Unread added rather than set")
+			}
+		}
+		var bytesCall ssa.CallInstruction
+		for _, ci := range callsTo(fn, false, "fbb.Message.Bytes") {
+			bytesCall = ci
+		}
+		// the flag is changed before the message is serialised: no mutation is reachable from Bytes()
+		okOrder := bytesCall != nil && len(muts) == 2
+		for _, m := range muts {
+			if bytesCall != nil && instrReaches(bytesCall, m) {
+				okOrder = false
+			}
+		}
+		r.Check("C10-unread", where, "flag changed before serialising", c.pos(fn.Pos()), okOrder,
+			"both flag updates precede Message.Bytes()", "the message is serialised before the flag is updated (or an update is missing): the stored copy keeps the old flag")
+		// written to the message's own file
+		own := false
+		for _, ci := range allCalls(fn) {
+			callee := ci.Common().StaticCallee()
+			if callee == nil || !c.inModule(callee) || !c.performs(callee, "os.Rename") || len(ci.Common().Args) < 2 {
+				continue
+			}
+			pathFromHeader := dependsOn(ci.Common().Args[0], func(x ssa.Value) bool {
+				call, ok := x.(*ssa.Call)
+				if !ok || callName(&call.Call) != "fbb.Header.Get" {
+					return false
+				}
+				k, _ := constString(call.Call.Args[1])
+				return k == "X-FilePath"
+			})
+			if pathFromHeader && bytesCall != nil && ci.Common().Args[1] == errFree(bytesCall) {
+				own = true
+			}
+		}
+		r.Check("C10-unread", where, "rewrites the message's own file", c.pos(fn.Pos()), own,
+			"the serialised message is published under the path recorded in X-FilePath", "the serialised message is not written to the path recorded in X-FilePath")
+	}
 	r.NotCov = append(r.NotCov, "equivalence with a reference model over operation histories", "folder listings and counts", "restart behaviour")
 }
 
@@ -872,6 +959,71 @@ func checkC12(c *Ctx, r *Report) {
 		r.Fail("C12-confine", "only %d mutating file-system call sites found in mailbox/fbb, expected at least 3", nSinks)
 	}
 	r.Infos["tainted_values"] = len(tn.tainted)
+
+	// ---- C12-localid: identifiers handed to SetSent/SetDeferred (the MID of a local outbox file,
+	// which a session takes from that file's Mid header - any string). Either they are checked like
+	// remote values, or every mutation they reach is a rename between two *symmetric* names
+	// Join(base, d1, X) and Join(base, d2, X) with d1, d2 single constant directory names: such a
+	// pair is either inside base/d1 and base/d2, or - when X climbs out - the two names are the same
+	// path and the rename changes nothing.
+	r.Rule("C12-localid", 1, "identifiers given to SetSent/SetDeferred cannot move files outside the mailbox")
+	tn2 := newTaint(taintCfg{
+		c:       c,
+		inScope: scope,
+		cleanCall: func(name string) bool {
+			return name == "path.Base" || name == "path/filepath.Base"
+		},
+		guarded: guarded,
+	})
+	for _, n := range []string{"(*DirHandler).SetSent", "(*DirHandler).SetDeferred"} {
+		fn := c.Func(pkg, n)
+		if fn == nil {
+			r.Fail("C12-localid", "anchor mailbox.%s not found", n)
+			continue
+		}
+		for _, p := range fn.Params[1:] {
+			if !isStringLike(p.Type()) {
+				continue
+			}
+			tn2.mark(p, nil)
+			for _, ref := range *p.Referrers() {
+				if st, ok := ref.(*ssa.Store); ok && st.Val == ssa.Value(p) {
+					tn2.taintMemory(st.Addr, p)
+				}
+			}
+		}
+	}
+	tn2.run()
+	nLocal := 0
+	for _, fn := range c.moduleFuncs() {
+		if !scope(fn) {
+			continue
+		}
+		for _, ci := range allCalls(fn) {
+			name := callName(ci.Common())
+			idxs, ok := fsMutators[name]
+			if !ok || !openFileWrites(ci) {
+				continue
+			}
+			bad := ""
+			for _, i := range idxs {
+				if i < len(ci.Common().Args) && tn2.tainted[ci.Common().Args[i]] {
+					bad = tn2.chain(ci.Common().Args[i])
+				}
+			}
+			if bad == "" {
+				continue
+			}
+			nLocal++
+			o := r.Add("C12-localid", fnName(fn), "sink "+name+" "+c.exprAt(fn, ci.Pos()), c.pos(ci.Pos()))
+			if name == "os.Rename" && symmetricJoins(ci.Common().Args[0], ci.Common().Args[1]) {
+				o.OK("rename between Join(base, d1, X) and Join(base, d2, X) with constant single-component d1, d2: inside the mailbox, or the same path twice")
+			} else {
+				o.Bad("a path operand derives from the identifier given to the handler (%s) without a confinement check, and the call is not a rename between two symmetric names: an identifier with dot-dot segments (the Mid header of a file placed in the outbox) moves or removes a file outside the mailbox", bad)
+			}
+		}
+	}
+	r.Add("C12-localid", "mailbox", "mutations reached by a SetSent/SetDeferred identifier", "mailbox").OK("%d site(s) examined", nLocal)
 	// informational: does fbb validate MIDs?
 	if pf := c.Func("fbb", "parseB2Proposal"); pf != nil {
 		validates := false
@@ -883,7 +1035,99 @@ func checkC12(c *Ctx, r *Report) {
 		}
 		r.Note("C12-fbb (information, not a verdict): fbb.parseB2Proposal validates the MID syntax: %v — the handler is the trust boundary", validates)
 	}
-	r.NotCov = append(r.NotCov, "symbolic links inside the mailbox directory", "file systems that treat other characters as separators or fold case", "SetSent/SetDeferred (identifiers of local outbox files, not remote input)")
+	r.NotCov = append(r.NotCov, "symbolic links inside the mailbox directory", "file systems that treat other characters as separators or fold case")
+}
+
+// variadicArgs: the elements of the slice literal go/ssa builds for a variadic call.
+func variadicArgs(v ssa.Value) ([]ssa.Value, bool) {
+	sl, ok := v.(*ssa.Slice)
+	if !ok || sl.Low != nil || sl.High != nil {
+		return nil, false
+	}
+	al, ok := sl.X.(*ssa.Alloc)
+	if !ok {
+		return nil, false
+	}
+	arr, ok := al.Type().Underlying().(*types.Pointer).Elem().Underlying().(*types.Array)
+	if !ok {
+		return nil, false
+	}
+	out := make([]ssa.Value, arr.Len())
+	for _, ref := range *al.Referrers() {
+		ia, ok := ref.(*ssa.IndexAddr)
+		if !ok {
+			continue
+		}
+		k, isC := constInt(ia.Index)
+		if !isC || k < 0 || k >= arr.Len() {
+			return nil, false
+		}
+		for _, r2 := range *ia.Referrers() {
+			if st, ok := r2.(*ssa.Store); ok {
+				if out[k] != nil {
+					return nil, false
+				}
+				out[k] = st.Val
+			}
+		}
+	}
+	for _, e := range out {
+		if e == nil {
+			return nil, false
+		}
+	}
+	return out, true
+}
+
+// sameTerm: the two values are the same SSA value, loads of the same path, equal constants or the
+// same concatenation of such values.
+func sameTerm(a, b ssa.Value) bool {
+	if a == b {
+		return true
+	}
+	if sa, ok := constString(a); ok {
+		sb, ok2 := constString(b)
+		return ok2 && sa == sb
+	}
+	ba, ok1 := a.(*ssa.BinOp)
+	bb, ok2 := b.(*ssa.BinOp)
+	if ok1 && ok2 && ba.Op == token.ADD && bb.Op == token.ADD {
+		return sameTerm(ba.X, bb.X) && sameTerm(ba.Y, bb.Y)
+	}
+	if _, isP := a.(*ssa.Parameter); isP {
+		return false
+	}
+	if ua, ok := a.(*ssa.UnOp); ok {
+		if ub, ok := b.(*ssa.UnOp); ok && ua.Op == token.MUL && ub.Op == token.MUL {
+			pa := pathOf(ua.X)
+			return pa != "" && pa == pathOf(ub.X)
+		}
+	}
+	return false
+}
+
+// symmetricJoins: a = Join(base, d1, X), b = Join(base, d2, X) with d1, d2 constant single path
+// components.
+func symmetricJoins(a, b ssa.Value) bool {
+	ca, ok1 := a.(*ssa.Call)
+	cb, ok2 := b.(*ssa.Call)
+	if !ok1 || !ok2 {
+		return false
+	}
+	na, nb := callName(&ca.Call), callName(&cb.Call)
+	if na != nb || (na != "path.Join" && na != "path/filepath.Join") {
+		return false
+	}
+	ea, ok1 := variadicArgs(ca.Call.Args[0])
+	eb, ok2 := variadicArgs(cb.Call.Args[0])
+	if !ok1 || !ok2 || len(ea) != 3 || len(eb) != 3 {
+		return false
+	}
+	single := func(v ssa.Value) bool {
+		s, ok := constString(v)
+		return ok && s != "" && s != "." && s != ".." && !strings.ContainsAny(strings.Trim(s, "/"), `/\`) && strings.Trim(s, "/") != "" && strings.Trim(s, "/") != ".."
+	}
+	return sameTerm(ea[0], eb[0]) && single(ea[1]) && single(eb[1]) && sameTerm(ea[2], eb[2])
 }
 
 // sepCheck: strings.Contains/ContainsAny/ContainsRune/IndexAny/IndexByte(x, const) where the
